@@ -330,6 +330,8 @@ def main(run):
                         if dim == "2d" and "theta" in pdn:
                             disp["theta_pd"] = rng.uniform(5, 25); disp["theta_pd_n"] = rng.choice([3, 4])
                             stats["reff_with_jitter"] = stats.get("reff_with_jitter", 0) + 1
+                if pn in synth and rep == 0:
+                    disp = {}          # the first case of a synthetic form factor is monodisperse: compared with its definition
                 er_disp = {}
                 er_par = [x for x in info.parameters.call_parameters if x.name == "radius_effective"][0]
                 if rng.random() < 0.3 and er_par.polydisperse and "radius_effective" in (info.parameters.pd_2d if dim == "2d" else info.parameters.pd_1d):
